@@ -690,7 +690,7 @@ def handleMergeConflict : Handler := fun cfg m l =>
   match hunkCombinedParents m.st with
   | some mp =>
     match parseMergeMarker l.text Markers.mcBegin with
-    | some c => .ok (true, { flushMP m with st := .mergeConflict mp .ours, mcNameOurs := some c })
+    | some c => .ok (true, { flushMP m with st := .mergeConflict mp .ours, mcNameOurs := some c, mcNameAnc := none })
     | none => .ok (false, m)
   | none =>
     match m.st with
